@@ -224,6 +224,111 @@ def decide(rep):
                        "brz-derivative-product", 0, kind="refinement-lost")
 
 
+def decide_classes(rep):
+    """F8 - every BRACKET TEXT is typed (Class, repeatable): for every text  '[' BODY ']'  whose body is a non-empty sequence of units
+    - a character other than backslash, '[' and ']', or a backslash and any character (the shape of every class text the library
+    builds: G9 / __process escape exactly the brackets, the backslash and three more characters) - __infer_type returns (Class, True).
+    Followed statement by statement like F7:  S1 as in F7 (the first substitution rewrites unit by unit: a backslash pair becomes the
+    replacement character, so the body stays a sequence of units);  C1 no such text fullmatches the one-unit regex;  C2 every match
+    of the class-simplifying regex that starts at position 0 of such a text ends at its end, and C2' the whole text is a match: so
+    re.sub (leftmost match, R3) replaces the whole text by its replacement;  C3 that replacement is the constant the next statement
+    compares with.  Same guards and the same PROOF-LOST rule as F7."""
+    from contracts.f2_forms import FORMS
+    idx = extract.Index()
+    fi = idx.func(P + "__infer_type")
+    same_form = body_text(fi) == FORMS["__infer_type"]
+    v = _Calls()
+    v.visit(fi.node)
+    if [c[0] for c in v.calls] != EXPECTED_CALLS or any(c[1] is None for c in v.calls):
+        rep.ob("F8: bracket texts are typed Class: the regex calls of __infer_type could not be read off the source in the reviewed order",
+               "unknown", "ast-scan", 0, kind="refinement-lost")
+        return
+    calls = v.calls
+    roles = {"r1": calls[2][1], "r2": calls[3][1], "classes": calls[7][1]}
+    repl1, replc = calls[2][2], calls[7][2]
+    trees = native("parse", {"patterns": list(roles.values())})
+    if any("tree" not in t for t in trees):
+        rep.ob("F8: a regex of __infer_type does not parse", "unknown", "cpython", 0, kind="refinement-lost")
+        return
+    T = {k: t["tree"] for k, t in zip(roles, trees)}
+    U = ((0, R.MAXCP),)
+    BS = R.cs_of("\\")
+    X = R.cs_minus(U, R.cs_of("\\[]"))
+    NB = R.cs_minus(U, BS)
+    OM = R.opt(R.MARK)
+    ANY = R.star(R.cs(U))
+    unit = R.alt(R.cs(X), R.cat(R.cs(BS), R.cs(NB)))               # after S1: no backslash pair is left
+    CL1 = R.cat(R.cs(R.cs_of("[")), unit, R.star(unit), R.cs(R.cs_of("]")))
+    unitm = R.alt(R.cat(R.cs(X), OM), R.cat(R.cs(BS), OM, R.cs(NB), OM))
+    CL1_from0 = R.cat(R.MARK, R.cs(R.cs_of("[")), OM, unitm, R.star(unitm), R.cs(R.cs_of("]")), OM)     # first marker at position 0
+    whole = R.cat(R.MARK, CL1, R.MARK)
+    two_bs = R.cat(R.MARK, R.cs(BS), R.cs(BS), R.MARK)
+    TC = R.T_language(T["classes"], U)
+    for k, A in (("CL1", CL1), ("r2", R.conj(R.T_language(T["r2"], U), R.cat(ANY, R.MARK, ANY, R.MARK, ANY))),
+                 ("classes", R.conj(TC, R.cat(ANY, R.MARK, ANY, R.MARK, ANY)))):
+        try:
+            empty, _c, _s = R.included(A, R.NONE, U)
+        except (CheckerError, R.Untranslatable):
+            empty = True
+        if empty:
+            rep.ob(f"F8 cover: the language of {k} is empty as translated", "unknown", "brz-derivative-product", 0, kind="refinement-lost")
+            return
+    side = (repl1 is not None and len(repl1) == 1 and repl1 not in "\\[]" and replc == "[a]" and
+            any(isinstance(n, ast.Compare) and isinstance(n.comparators[0], ast.Constant) and n.comparators[0].value == replc
+                for n in ast.walk(fi.node)))
+    facts = [
+        ("S1 the first substitution's regex matches exactly two backslashes", R.conj(R.T_language(T["r1"], U), R.cat(R.MARK, ANY, R.MARK)), two_bs),
+        ("S1' two backslashes are matched by it", two_bs, R.T_language(T["r1"], U)),
+        ("C1 no bracket text fullmatches the one-unit regex", R.conj(R.T_language(T["r2"], U), whole), R.NONE),
+        ("C2 a match of the class-simplifying regex that starts a bracket text ends at its end", R.conj(TC, CL1_from0), whole),
+        ("C2' the class-simplifying regex matches every bracket text as a whole", whole, TC),
+    ]
+    rep.ob("F8 C3 the class-simplifying substitution writes the constant the next statement compares with; the first substitution "
+           "writes an ordinary character", "discharged" if side and same_form else ("failed" if not side else "unknown"), "ast-scan", 0,
+           kind="lemma" if side else "refinement-lost")
+    for name, A, B in facts:
+        try:
+            ok, cex, states = R.included(A, B, U)
+        except (CheckerError, R.Untranslatable):
+            rep.ob(f"F8 {name}", "unknown", "brz-derivative-product", 0, kind="refinement-lost")
+            continue
+        if ok and same_form:
+            rep.ob(f"F8 {name}", "discharged", "brz-derivative-product", 0, kind="lemma")
+        elif ok:
+            rep.ob(f"F8 {name}: holds, but __infer_type no longer has the form the argument follows", "unknown", "ast-scan", 0,
+                   kind="refinement-lost")
+        else:
+            w = "".join(chr(c) for c in (cex or []) if c != R.MARKCP)
+            res = native("run_module", {"module": "pvc.checks._f7", "func": "text_type", "args": {"t": w}})
+            if res.get("valid_class") and res.get("observed", [None, None])[0:2] != ["Class", True]:
+                rep.ob(f"F8 {name}", "failed", "brz-derivative-product", 0, kind="lemma")
+                code = (f"p = Pregex({w!r}, escape=False)\nobserved = (str(p), p._get_type().name, p._is_repeatable())\n"
+                        "violated = (observed[1], observed[2]) != ('Class', True)")
+                rep.violation(f"F8 {name}", {"witness_pattern": w, "observed": res.get("observed")}, {"kind": "python", "code": code},
+                              witness=f"Pregex({w!r}, escape=False)")
+            else:
+                rep.ob(f"F8 {name}: the fact no longer holds (witness {w!r}) but no bracket text is shown mistyped: argument lost", "unknown",
+                       "brz-derivative-product", 0, kind="refinement-lost")
+
+
+def text_type(t):
+    """type of a raw pattern text on the real code; valid_class: the text is one bracket expression for re"""
+    import re
+    from pregex.core.pre import Pregex
+    try:
+        from pvc import native as N
+        tree = N._parser()[0].parse(t, 24)
+        valid = len(tree) == 1 and str(tree[0][0]) in ("IN", "LITERAL", "NOT_LITERAL") and t.startswith("[")
+    except Exception:
+        valid = False
+    try:
+        p = Pregex(t, escape=False)
+        obs = [p._get_type().name, p._is_repeatable()]
+    except RecursionError:
+        obs = ["RecursionError", None]
+    return {"observed": obs, "valid_class": valid}
+
+
 def unescape(w, M):
     out, i = [], 0
     while i < len(w):
